@@ -416,3 +416,43 @@ def ite(cond, a, b):
     A, B = V.SymInt.lift(a), V.SymInt.lift(b)
     W = max(A.w, B.w)
     return V.SymInt.mk(z3.If(cond.t, V.resize(A.t, W), V.resize(B.t, W)), min(A.lo, B.lo), max(A.hi, B.hi))
+
+
+def struct_eq(a, b, depth=0):
+    """field-wise equality of decoded vs original values -> bool | SymBool (dataclass fields with init=False are skipped)"""
+    import dataclasses
+    import enum
+    import uuid
+
+    if depth > 10:
+        raise RecursionError("struct_eq")
+    if isinstance(a, enum.Enum) and isinstance(a, int):
+        a = int(a)
+    if isinstance(b, enum.Enum) and isinstance(b, int):
+        b = int(b)
+    if isinstance(a, (V.SymInt, V.SymBool)) or isinstance(b, (V.SymInt, V.SymBool)):
+        return a == b
+    if V.is_byteslike(a) and V.is_byteslike(b):
+        if not isinstance(a, V.SymSeq):
+            a = V.SymBytes(list(bytes(a)))
+        return a == b
+    if isinstance(a, (uuid.UUID,)) or type(a).__name__ in ("SymUUID", "FakeUUID") or isinstance(b, uuid.UUID) or type(b).__name__ in ("SymUUID", "FakeUUID"):
+        if a is None or b is None:
+            return a is b
+        return struct_eq(a.bytes_le, b.bytes_le, depth + 1)
+    if isinstance(a, V.SymStr) or isinstance(b, V.SymStr):
+        return a == b
+    if dataclasses.is_dataclass(a) and dataclasses.is_dataclass(b) and not isinstance(a, type):
+        if type(a) is not type(b):
+            return False
+        return all_of([_sb(struct_eq(getattr(a, f.name), getattr(b, f.name), depth + 1)) for f in dataclasses.fields(a) if f.init])
+    if isinstance(a, (list, tuple)) and isinstance(b, (list, tuple)):
+        if len(a) != len(b):
+            return False
+        return all_of([_sb(struct_eq(x, y, depth + 1)) for x, y in zip(a, b)])
+    r = a == b
+    return r
+
+
+def _sb(x):
+    return x if isinstance(x, (bool, V.SymBool)) else bool(x)
